@@ -33,7 +33,6 @@ type runStats struct {
 	PerSystem   map[string][3]int  `json:"per_system"`
 }
 
-
 func systems() []*Sys {
 	return []*Sys{
 		NewSys(false, 2, 2),
@@ -105,6 +104,33 @@ func TestExplore(t *testing.T) {
 				st.Panics = append(st.Panics, *pr)
 				continue
 			}
+			bundle.Systems = append(bundle.Systems, tab)
+			st.Chains++
+			st.ChainEvents += len(seqv)
+		}
+	}
+	// directed: MAC 1 brings a session up step by step; before and after every step the twin MAC (3) and the
+	// neighbouring MAC (2) send the same kinds of frame into that session
+	{
+		ts := all[2]
+		ev := func(op string, m, sid int) core.Event { return core.Event{"op": op, "m": m, "sid": sid} }
+		var seqv []core.Event
+		foreign := func() {
+			for _, m := range []int{3, 2} {
+				for _, op := range []string{"LCPACK", "PAPGOOD", "IPCPCR", "IPCPACK", "IP", "LCPECHO"} {
+					seqv = append(seqv, ev(op, m, 1))
+				}
+			}
+		}
+		for _, own := range []core.Event{ev("PADI", 1, 0), ev("PADR", 1, 0), ev("LCPCR", 1, 1), ev("LCPACK", 1, 1), ev("PAPGOOD", 1, 1), ev("IPCPCR", 1, 1), ev("IPCPACK", 1, 1), ev("IP", 1, 1)} {
+			seqv = append(seqv, own)
+			foreign()
+		}
+		seqv = append(seqv, ev("LCPTERM", 3, 1), ev("IP", 1, 1), ev("PADT", 3, 1), ev("IP", 1, 1), ev("LCPTERM", 2, 1), ev("PADT", 2, 1), ev("IP", 1, 1))
+		tab, pr := core.Chain(ts, ts.Name()+"#twin", seqv, false)
+		if pr != nil {
+			st.Panics = append(st.Panics, *pr)
+		} else {
 			bundle.Systems = append(bundle.Systems, tab)
 			st.Chains++
 			st.ChainEvents += len(seqv)
